@@ -1724,7 +1724,7 @@ fn depth_for(tier: Tier, c: &Cfg) -> usize {
         }
         (Tier::Quick, Phase::Tx) => match (c.slots, c.eth) {
             (1, _) | (2, _) => FIX,
-            (_, true) => 7,
+            (_, true) => 6,
             (_, false) => 7,
         },
         (Tier::Thorough, Phase::Mix) => match c.slots {
